@@ -317,6 +317,14 @@ class Folder:
             }
             if nm in table:
                 return int(table[nm])
+        if base == "char::is_digit" and len(a) > 1 and isinstance(a[0], int) and isinstance(a[1], int):
+            c = a[0]
+            if c < 128:
+                try:
+                    return int(int(chr(c), a[1]) >= 0) if chr(c).isalnum() else 0
+                except ValueError:
+                    return 0
+            return 0
         if base == "char::is_ascii_digit":
             return int(0x30 <= a[0] <= 0x39)
         if base == "char::is_ascii_hexdigit":
